@@ -284,3 +284,25 @@ def true_paths(body, start=0):
 def fmt_path(body, path, n=14):
     bl = [e for e in path if e.label and e.label[0] in ("bool", "variant")]
     return " ".join(f"bb{e.src}:{e.label[1] if e.label[0]=='bool' else '/'.join(e.label[2])}" for e in bl[:n])
+
+
+def assigned_agg_variants(body, st):
+    """variants of the aggregate(s) a statement assigns, looking through moves of temporaries"""
+    rv = st["rv"]
+    if rv["k"] == "agg" and "variant" in rv:
+        return {rv["variant"]}
+    if rv["k"] == "use" and rv["op"]["k"] == "const":
+        v = rv["op"]["val"]
+        return {v.split("::")[-1]} if "::" in v else {v}
+    out = set()
+    if rv["k"] == "use" and rv["op"]["k"] in ("copy", "move") and not rv["op"]["place"]["proj"]:
+        for kind, x, bb in body.prov.direct_producers(rv["op"]["place"]["local"]):
+            if kind == "agg" and "variant" in x["rv"]:
+                out.add(x["rv"]["variant"])
+            elif kind == "call":
+                out.add("call:" + callee_base(x))
+            elif kind == "const":
+                out.add(x["rv"]["op"]["val"].split("::")[-1])
+            else:
+                out.add("?")
+    return out
